@@ -36,19 +36,27 @@ impl Iterator for Chars<'_> {
             return None;
         }
 
-        let width = utf8_width::get_width(self.bytes[self.pos]);
+        let byte = self.bytes[self.pos];
+        let width = utf8_width::get_width(byte);
         if width == 1 {
             self.pos += 1;
-            Some(Ok(self.bytes[self.pos - 1] as char))
+            return Some(Ok(byte as char));
+        }
+
+        // `width == 0` is a byte that cannot start a sequence, and a sequence may be cut short
+        // by the end of the input: both are invalid bytes, not a reason to panic.
+        let chr = self
+            .bytes
+            .get(self.pos..self.pos + width)
+            .filter(|_| width > 1)
+            .and_then(|seq| std::str::from_utf8(seq).ok())
+            .and_then(|s| s.chars().next());
+        if let Some(chr) = chr {
+            self.pos += width;
+            Some(Ok(chr))
         } else {
-            let c = std::str::from_utf8(&self.bytes[self.pos..self.pos + width]);
-            if let Ok(chr) = c {
-                self.pos += width;
-                Some(Ok(chr.chars().next().unwrap()))
-            } else {
-                self.pos += 1;
-                Some(Err(self.bytes[self.pos]))
-            }
+            self.pos += 1;
+            Some(Err(byte))
         }
     }
 }
